@@ -3,9 +3,9 @@
 a weak catch).  For every stored change: apply to /repo, run the check of its (first) property with VERIF_SEED=2,3,..,
 revert.  Prints the (change, seed) pairs that are missed; never touches meta.json or committed evidence.
 
-  python3 tools/seedrobust.py [name-prefix] [seed ...]     (default seeds: 2 3)
+  python3 tools/seedrobust.py [name-prefix] [seed ...]     (default seeds: 2 3; SEEDROBUST_RE=<regex> filters names too)
 """
-import json, os, subprocess, sys
+import json, os, re, subprocess, sys
 V = os.path.dirname(os.path.dirname(os.path.abspath(__file__)))
 S = os.path.join(V, "seeded")
 prefix = next((a for a in sys.argv[1:] if not a.isdigit()), "")        # e.g. "F-" to audit only the per-file / per-theme rounds
@@ -25,7 +25,7 @@ missed = []
 try:
     for n in sorted(os.listdir(S)):
         mp = os.path.join(S, n, "meta.json")
-        if not os.path.exists(mp) or not n.startswith(prefix):
+        if not os.path.exists(mp) or not n.startswith(prefix) or not re.search(os.environ.get("SEEDROBUST_RE", ""), n):
             continue
         m = json.load(open(mp))
         prop = m["property"]
